@@ -99,17 +99,26 @@ Section Bip32.
     intros x i Hk Hi. eapply bip32_neuter_commutes; eauto.
   Qed.
 
-  (* hardened children (index >= 2^31) hash 0x00 || ser256(k) || ser32(i); ser32 is injective, so the hardened
-     bit is part of the MAC input *)
-  Theorem C45_bip32_hardened_derivation_input : forall k cc i, HARDENED <= i ->
-    ckey_derive pt mulG n ser33 hmac512 k cc i =
-    let out := hmac512 cc (0%N :: be_bytes_z 32 k ++ be_bytes_z 4 i) in
-    match priv_tweak_add n k (be_val (firstn 32 out)) with Some k' => Some (k', skipn 32 out) | None => None end.
-  Proof. intros k cc i Hi. apply ckey_derive_hardened; assumption. Qed.
 End Bip32.
 Print Assumptions C45_bip32_public_derivation_eq_public_of_private.
 Print Assumptions C45_bip32_neuter_commutes_with_derive.
+
+(* hardened children (index >= 2^31) hash 0x00 || ser256(k) || ser32(i), non-hardened ones serP(k*G) || ser32(i);
+   ser32 is injective (next theorem), so the hardened bit is always part of the MAC input *)
+Theorem C45_bip32_hardened_derivation_input : forall (pt : Type) (mulG : Z -> pt) n ser33 hmac512 k cc i, HARDENED <= i ->
+  ckey_derive pt mulG n ser33 hmac512 k cc i =
+  let out := hmac512 cc (0%N :: be_bytes_z 32 k ++ be_bytes_z 4 i) in
+  match priv_tweak_add n k (be_val (firstn 32 out)) with Some k' => Some (k', skipn 32 out) | None => None end.
+Proof. exact ckey_derive_hardened_input. Qed.
 Print Assumptions C45_bip32_hardened_derivation_input.
+
+Theorem C45_bip32_normal_derivation_input : forall (pt : Type) (mulG : Z -> pt) n ser33 hmac512 k cc i h x, i < HARDENED ->
+  ser33 (mulG k) = h :: x ->
+  ckey_derive pt mulG n ser33 hmac512 k cc i =
+  let out := hmac512 cc (h :: x ++ be_bytes_z 4 i) in
+  match priv_tweak_add n k (be_val (firstn 32 out)) with Some k' => Some (k', skipn 32 out) | None => None end.
+Proof. exact ckey_derive_normal_input. Qed.
+Print Assumptions C45_bip32_normal_derivation_input.
 
 Theorem C45_bip32_child_number_encoding_injective : forall i j, 0 <= i < 2 ^ 32 -> 0 <= j < 2 ^ 32 ->
   be_bytes_z 4 i = be_bytes_z 4 j -> i = j.
@@ -138,7 +147,7 @@ Print Assumptions C45_extkey_decode_validity_rules.
 (* non-vacuity: a concrete address-like string round-trips in the model; the group premises of the BIP32
    theorems are satisfiable (Z/2 with generator 1) *)
 Example C45_nonvacuous :
-  (exists s, encode BECH32 (str "bc") [0; 14; 20; 15]%N = EncOk s /\ decode 90 s = DecOk BECH32 (str "bc") [0; 14; 20; 15]%N) /\
+  (exists s, encode BECH32 [98; 99]%N [0; 14; 20; 15]%N = EncOk s /\ decode 90 s = DecOk BECH32 [98; 99]%N [0; 14; 20; 15]%N) /\
   bip32_group_premises bool xorb false (fun b => b) true 2 negb.
 Proof.
   split.
